@@ -118,12 +118,17 @@ func (rt *runtime) cmplEvaluateNodeArrayLiteral(node *nodeArrayLiteral) Value {
 
 func (rt *runtime) cmplEvaluateNodeAssignExpression(node *nodeAssignExpression) Value {
 	left := rt.cmplEvaluateNodeExpression(node.left)
+	var leftValue Value
+	if node.operator != token.ASSIGN {
+		// 11.13.2: GetValue(lref) comes before the right operand is evaluated.
+		leftValue = left.resolve()
+	}
 	right := rt.cmplEvaluateNodeExpression(node.right)
 	rightValue := right.resolve()
 
 	result := rightValue
 	if node.operator != token.ASSIGN {
-		result = rt.calculateBinaryExpression(node.operator, left, rightValue)
+		result = rt.calculateBinaryExpression(node.operator, leftValue, rightValue)
 	}
 
 	rt.putValue(left.reference(), result)
